@@ -15,11 +15,11 @@ INVARIANTS = ["InputsWF", "DisjointKeepsAll", "DisjointAccepted", "Refusals", "P
 TIERS = {
     # 31 752 pairs x 9 combines; 25 deep pairs x all sequences of <= 2 operations
     "quick": dict(Chans={1, 2}, ChOpts={111, 121, 131, 112, 211, 221}, MeasNames={1, 2}, MeasOpts={110, 111, 112, 121, 211},
-                  VersR={1, 2}, DeepChOpts={111, 131, 211}, DeepMeasOpts={111}, MaxDepth=2, MaxSel=1, SwapRenames=True, EmitMod=24),
+                  VersR={1, 2}, DeepChOpts={111, 131, 211}, DeepMeasOpts={111}, MaxDepth=2, MaxSel=1, SwapRenames=True, EmitMod=30),
     # 468 512 pairs x 9 combines; 9 deep pairs x all sequences of <= 3 operations with selections of <= 2 names
     "thorough": dict(Chans={1, 2, 3}, ChOpts={111, 121, 131, 112, 211, 221, 311, 321}, MeasNames={1, 2},
                      MeasOpts={110, 111, 112, 113, 121, 211}, VersR={1, 2}, DeepChOpts={111, 211}, DeepMeasOpts={111},
-                     MaxDepth=3, MaxSel=2, SwapRenames=True, EmitMod=60),
+                     MaxDepth=3, MaxSel=2, SwapRenames=True, EmitMod=100),
 }
 
 
